@@ -100,8 +100,8 @@ def h_add_rule(ctx):
 
 
 def harnesses(tier):
-    from props import C17_sections
-    return [Harness('_add_rule', h_add_rule, [ME + 'MerchantEngine._add_rule', ME + 'MerchantRule.__post_init__'])] + C17_sections.harnesses(tier)
+    from props import C17_sections, C17_rules
+    return [Harness('_add_rule', h_add_rule, [ME + 'MerchantEngine._add_rule', ME + 'MerchantRule.__post_init__'])] + C17_sections.harnesses(tier) + C17_rules.harnesses(tier)
 
 
 # ------------------------------------------------------------------------------------------ structural clauses
